@@ -132,8 +132,8 @@ class Gf180Walker(h.HierarchyWalker):
         # Map none to default, otherwise leave alone
         mostype = h.MosType.NMOS if params.tp is None else params.tp
         mosfam = h.MosFamily.CORE if params.family is None else params.family
-        mosvth = h.MosVth.STD if params.vth is None else params.vth
-        args = (mostype, mosfam, mosvth)
+        # The Gf180 devices are keyed by type and family alone; there is no threshold variant to select by.
+        args = (mostype, mosfam)
 
         # Find all the xtors that match the args
         subset = {}
@@ -150,6 +150,10 @@ class Gf180Walker(h.HierarchyWalker):
 
         if len(subset) >= 2:
             msg = f"Mos module choice not well-defined given parameters {args}"
+            raise RuntimeError(msg)
+
+        if not subset:
+            msg = f"No Mos module for parameters {args}"
             raise RuntimeError(msg)
 
         # Return the first one (supported as of 3.7)
